@@ -286,7 +286,16 @@ pub fn run_scase(c: &SCase) -> SObs {
             Cmd::AutoDrop { slot } => {
                 let k = shared.dkeys.lock().unwrap()[*slot as usize % nds].take();
                 if let Some(k) = k {
-                    drop(k.into_auto());
+                    if eid & 2 == 0 {
+                        drop(k.into_auto());
+                    } else {
+                        // the auto-cancelling key goes out of scope while its owner unwinds (the
+                        // driver catches the panic and keeps stepping): dropped is dropped
+                        let _ = std::panic::catch_unwind(std::panic::AssertUnwindSafe(move || {
+                            let _auto = k.into_auto();
+                            std::panic::resume_unwind(Box::new("scripted unwinding in the driver"));
+                        }));
+                    }
                 }
             }
             Cmd::CloneCancel { slot } => {
